@@ -719,18 +719,20 @@ def recursion_census(w, roots, prefix_filter=None):
 
 
 def scc_key(w, comp):
-    """a key that survives a new type joining an existing recursion: the set of method identities
-    (trait::method for trait impl methods, the path for inherent functions/closures)"""
+    """a key that survives a new type joining an existing recursion, and a loop of the recursion being written with an iterator adapter: the
+    set of method identities (trait::method for trait impl methods, the path for inherent functions); a closure counts as the function it
+    is written in"""
     ids = set()
     for p in comp:
         f = w.fns[p]
+        seen = 0
+        while f.kind == 'Closure' and w.fns.get(f.parent) is not None and seen < 8:
+            f = w.fns[f.parent]
+            seen += 1
         if f.impl_trait:
             ids.add(f.impl_trait.replace('yarel::', '').replace('std::', '') + '::' + f.name)
-        elif f.kind == 'Closure' and w.fns.get(f.parent) is not None and w.fns[f.parent].impl_trait:
-            pf = w.fns[f.parent]
-            ids.add(pf.impl_trait.replace('yarel::', '').replace('std::', '') + '::' + pf.name + '::{closure}')
         else:
-            ids.add(p.replace('yarel::', ''))
+            ids.add(f.path.replace('yarel::', ''))
     return ' + '.join(sorted(ids))
 
 
